@@ -85,8 +85,10 @@ func VerifH_C19_live() {
 		cancel()
 	}()
 	var got []int
+	var gotAt []int64
 	for r := range ch {
 		got = append(got, int(r.DstPort))
+		gotAt = append(gotAt, verifNow())
 		if consumer > 0 {
 			time.Sleep(consumer)
 		}
@@ -97,7 +99,12 @@ func VerifH_C19_live() {
 	verifAssert(end <= int64(cancelAt)+4*int64(consumer)+int64(time.Millisecond), "the stream did not end promptly after cancellation")
 	// the output is the concatenation of the passes, in order, nothing lost inside a completed pass
 	for i, id := range got {
-		verifAssert(id == i, "requests lost, duplicated or reordered across passes")
+		if gotAt[i] < int64(cancelAt) {
+			verifAssert(id == i, "requests lost, duplicated or reordered across passes")
+		} else if i > 0 {
+			// once the scan is cancelled a request in flight may be dropped; never duplicated or reordered
+			verifAssert(id > got[i-1], "requests duplicated or reordered")
+		}
 	}
 	// every pass that completed was delivered completely
 	delivered := 0
